@@ -21,14 +21,18 @@ import translate_colors
 from vlib import Check, RunnerPool, compile_job, driver, log, unhex
 
 REF = json.load(open(translate_colors.REF_JSON))["colors"]
-UNIT_SASS = {"": "", "pct": "%", "deg": "deg"}
+UNIT_SASS = {"": "", "pct": "%", "deg": "deg", "grad": "grad", "rad": "rad", "turn": "turn", "px": "px"}
+CH_FN = {"rgb-ch": "rgb", "rgba-ch": "rgba", "hsl-ch": "hsl", "hsla-ch": "hsla", "hwb-ch": "color.hwb"}
 SASS_FN = {"hwb": "color.hwb", "whiteness": "color.whiteness", "blackness": "color.blackness",
            "change": "change-color", "adjust": "adjust-color", "scale": "scale-color"}
 HEADER = '@use "sass:color";\n@use "sass:math";\n'
 
 # ------------------------------------------------------------------------------------------------
 # expressions:  ("name", spelling) | ("hex", digits) | ("num", decimal-or-"p/q" string, unit)
+#               | ("special", text)   an unquoted special-function string: var(--x), env(x)
 #               | ("call", fn, [args], [(kw, arg)], alias-or-None)
+#               fn `rgb-ch`/`rgba-ch`/`hsl-ch`/`hsla-ch`/`hwb-ch`: the one-argument channel syntax
+#               `f(a b c)` or, with kw `slash`, `f(a b c / alpha)`
 # ------------------------------------------------------------------------------------------------
 
 
@@ -42,6 +46,10 @@ def hx(s):
 
 def num(s, unit=""):
     return ("num", str(s), unit)
+
+
+def special(text):
+    return ("special", text)
 
 
 def call(fn, *args, kw=(), alias=None):
@@ -64,7 +72,14 @@ def to_sass(e):
             p, q = s.split("/")
             s = f"math.div({p}, {q})"
         return s + UNIT_SASS[e[2]]
+    if k == "special":
+        return e[1]
     _, fn, args, kw, alias = e
+    if fn in CH_FN:
+        inner = " ".join(to_sass(a) for a in args)
+        if kw:
+            inner += " / " + to_sass(kw[0][1])
+        return f"{CH_FN[fn]}({inner})"
     if fn == "eq":
         return f"({to_sass(args[0])} == {to_sass(args[1])})"
     parts = [to_sass(a) for a in args] + [f"${k}: {to_sass(v)}" for k, v in kw]
@@ -80,8 +95,11 @@ def to_tokens(e):
     if k == "num":
         q = frac(e[1])
         return [f"n:{q.numerator}/{q.denominator}:{e[2] or '-'}"]
-    _, fn, args, kw, _ = e
-    t = ["(", fn]
+    if k == "special":
+        return ["v:" + e[1].encode().hex()]
+    _, fn, args, kw, alias = e
+    # rgb/rgba and hsl/hsla are separate tokens: the name is part of the string returned for special arguments
+    t = ["(", alias if fn in ("rgb", "hsl") and alias in ("rgba", "hsla") else fn]
     for a in args:
         t += to_tokens(a)
     for k2, v in kw:
@@ -93,6 +111,27 @@ def has_call(e):
     return e[0] == "call"
 
 
+def features(e, acc):
+    """Constructs of the round-3 growth present in an expression (for the evidence histogram)."""
+    if e[0] == "num" and e[2] not in ("", "pct", "deg"):
+        acc.add("construct:unit " + e[2])
+    elif e[0] == "special":
+        acc.add("construct:special-function argument")
+    elif e[0] == "call":
+        _, fn, args, kw, alias = e
+        if fn in CH_FN:
+            acc.add(f"construct:{CH_FN[fn]}(a b c / alpha)" if kw else f"construct:{CH_FN[fn]}(a b c)")
+        if fn in ("rgb", "hsl") and len(args) == 2:
+            acc.add(f"construct:{alias or fn}() with two arguments")
+        if fn in ("grayscale", "invert", "opacity", "saturate") and args and args[0][0] == "num" and len(args) == 1:
+            acc.add("construct:plain-CSS filter " + fn + "(number)")
+        for a in args:
+            features(a, acc)
+        for _, v in kw:
+            features(v, acc)
+    return acc
+
+
 # ------------------------------------------------------------------------------------------------
 # cases
 # ------------------------------------------------------------------------------------------------
@@ -102,8 +141,11 @@ class Case:
     exprs[1] must be the same colour (grass's own `==` and identical compressed spelling) — the direct
     oracle; `expect` optionally fixes the expected compressed-output channels from reference data."""
 
-    def __init__(self, exprs, law=None, expect=None, group="", extra=()):
+    def __init__(self, exprs, law=None, expect=None, group="", extra=(), skip_if_risky=False):
         self.exprs = list(exprs)
+        # the law equates two differently computed f64 values: where the model marks a rounding f64-sensitive
+        # (exact channel within 1e-8 of X.5) the direct law is not judged (the tie still is); counted in evidence
+        self.skip_if_risky = skip_if_risky
         self.law = law
         self.expect = expect
         self.group = group
@@ -420,6 +462,97 @@ def spelling_cases(rng, n):
     return out
 
 
+ANGLES = {  # unit -> (values, factor to degrees as a decimal string the law can use; None = irrational)
+    "grad": (["0", "10", "50", "100", "133.3", "400", "410", "-30", "-450.5"], F(9, 10)),
+    "turn": (["0", "0.25", "0.5", "1", "1.125", "-0.25", "2.75", "0.001"], F(360)),
+    "rad": (["0", "1", "3.14159", "0.5", "6.5", "-1", "-7.25", "0.0001"], None),
+    "px": (["0", "30", "400", "-30.5"], F(1)),
+    "pct": (["0", "30", "400", "-30.5"], F(1)),
+}
+RAD_TO_DEG = F(180.0 / __import__("math").pi)   # the f64 grass multiplies with (unit/conversion.rs:83)
+SPECIALS = ["var(--x)", "var(--long-name)", "env(x)", "env(safe-area-inset-left)", "var(--a, 1)"]
+
+
+def dec(q):
+    """A Fraction as a finite decimal literal (the callers only pass values with a finite expansion)."""
+    q = F(q)
+    s = f"{q.numerator * 10 ** 12 // q.denominator}" if q >= 0 else "-" + f"{-q.numerator * 10 ** 12 // q.denominator}"
+    neg, digits = s.startswith("-"), s.lstrip("-").rjust(13, "0")
+    out = (digits[:-12] + "." + digits[-12:]).rstrip("0").rstrip(".")
+    return ("-" if neg else "") + out
+
+
+def syntax_cases(rng, n):
+    """Round-3 growth: angle units, the one-argument space/slash channel syntax, special-function (var/env)
+    arguments returned as plain-CSS function strings, CSS filter pass-through, rgba($color, $alpha)."""
+    out = []
+    # laws between two spellings of the same f64 computation are always judged; a unit conversion multiplies
+    # by a factor first, so those are not judged where the model marks the rounding f64-sensitive
+    L = lambda lhs, rhs, law: out.append(Case([lhs, rhs], law=law, group="syntax", skip_if_risky="_is_deg" in law))
+    T = lambda *es: out.append(Case(list(es), group="syntax"))
+    pcs = ["0", "12.5", "50", "33.3333", "100", "120", "-5"]
+    for _ in range(n):
+        # --- angle units: every place angle_value is used
+        unit = rng.choice(list(ANGLES))
+        v = rng.choice(ANGLES[unit][0])
+        fac = ANGLES[unit][1]
+        deg = F(v) * (fac if fac is not None else RAD_TO_DEG)
+        s_, l_ = num(rng.choice(pcs), "pct"), num(rng.choice(pcs), "pct")
+        a = num(v, unit)
+        d = num(dec(deg), "deg")     # rad: 12 decimals of the f64 product (colours compare by channel)
+        c = rand_color(rng)
+        c8 = rand_color(rng, rgb_only=True)
+        T(call("hue", call("hsl", a, s_, l_)))
+        L(call("hsl", a, s_, l_), call("hsl", d, s_, l_), f"hsl_hue_{unit}_is_deg")
+        w_, b_ = num(rng.choice(["0", "10", "40", "80", "100"]), "pct"), num(rng.choice(["0", "10", "40", "80", "100"]), "pct")
+        L(call("hwb", a, w_, b_), call("hwb", d, w_, b_), f"hwb_hue_{unit}_is_deg")
+        L(call("adjust-hue", c, a), call("adjust-hue", c, d), f"adjust_hue_{unit}_is_deg")
+        L(call("adjust", c, kw=[("hue", a)]), call("adjust-hue", c, d), f"adjust_color_hue_{unit}_is_deg")
+        L(call("change", c, kw=[("hue", a)]), call("change", c, kw=[("hue", d)]), f"change_color_hue_{unit}_is_deg")
+        # --- one-argument channel syntax
+        chv = lambda: rng.choice([num(rng.choice(["0", "1", "127.5", "200", "255", "300", "-1"])), num(rng.choice(pcs), "pct")])
+        r_, g_, b2 = chv(), chv(), chv()
+        al = rng.choice([num(rng.choice(UNIT_AMOUNTS[:6])), num(rng.choice(["0", "25", "50", "100", "120"]), "pct")])
+        nm = rng.choice(["rgb", "rgba"])
+        L(call(nm + "-ch", r_, g_, b2), call("rgb", r_, g_, b2, alias=nm), "rgb_space_is_comma")
+        L(call(nm + "-ch", r_, g_, b2, kw=[("slash", al)]), call("rgb", r_, g_, b2, al, alias=nm), "rgb_slash_is_comma")
+        hn = rng.choice(["hsl", "hsla"])
+        hh = rng.choice([a, num(rng.choice(DEGREES), rng.choice(["", "deg"]))])
+        L(call(hn + "-ch", hh, s_, l_), call("hsl", hh, s_, l_, alias=hn), "hsl_space_is_comma")
+        L(call(hn + "-ch", hh, s_, l_, kw=[("slash", al)]), call("hsl", hh, s_, l_, al, alias=hn), "hsl_slash_is_comma")
+        L(call("hwb-ch", hh, w_, b_), call("hwb", hh, w_, b_), "hwb_space_is_comma")
+        L(call("hwb-ch", hh, w_, b_, kw=[("slash", al)]), call("hwb", hh, w_, b_, al), "hwb_slash_is_comma")
+        # wrong element counts (errors by class), a unit that is neither none nor %
+        T(call(nm + "-ch", r_, g_))
+        T(call(hn + "-ch", hh, s_, l_, al))
+        T(call("rgb", r_, num("3", "px"), b2, alias=nm))
+        T(call("rgb", r_, g_, b2, num("1", "px"), alias=nm))
+        # --- special-function arguments: the call is returned as an unquoted plain-CSS function string
+        sp = lambda: special(rng.choice(SPECIALS))
+        args = [r_, g_, b2] + ([al] if rng.random() < 0.5 else [])
+        args[rng.randrange(len(args))] = sp()
+        T(call("rgb", *args, alias=nm))
+        T(call(nm + "-ch", *args[:3]))
+        if len(args) == 4 and args[2][0] == "num" and args[3][0] == "num":
+            T(call(nm + "-ch", *args[:3], kw=[("slash", args[3])]))
+        args = [hh, s_, l_] + ([al] if rng.random() < 0.5 else [])
+        args[rng.randrange(len(args))] = sp()
+        T(call("hsl", *args, alias=hn))
+        T(call(hn + "-ch", *args[:3]))
+        T(call("rgb", c, sp(), alias="rgba"))
+        T(call("rgb", special(rng.choice(["var(--x)", "var(--long-name)", "var(--a, 1)"])), al, alias=nm))
+        T(call(nm + "-ch", special(rng.choice(["var(--x)", "var(--long-name)"]))))
+        T(call(nm + "-ch", r_, special(rng.choice(["var(--x)", "var(--long-name)"]))))
+        T(call("hsl", special(rng.choice(["var(--x)", "var(--long-name)"])), s_, alias=hn))
+        # --- plain-CSS filter functions pass through; opacity($color) is alpha($color)
+        fv = num(rng.choice(["0", "0.5", "1", "1.5", "50", "0.123456789012", "-2"]), rng.choice(["", "pct", "px"]))
+        T(call(rng.choice(["grayscale", "invert", "opacity", "saturate"]), fv))
+        T(call("opacity", c), call("alpha", c))
+        # --- rgba($color, $alpha): alpha replaced, channels kept
+        L(call("rgb", c, al, alias=nm), call("rgb", call("red", c), call("green", c), call("blue", c), al, alias="rgba"), "rgba_color_alpha")
+    return out
+
+
 def law_cases(rng, n):
     """The laws of the property statement on random colours in every spelling (direct oracle + tie)."""
     out = []
@@ -582,6 +715,8 @@ def err_class(ans):
         return "err bounds"
     if "may not be passed along with" in msg:
         return "err mixed"
+    if "elements allowed, but" in msg or msg.startswith("Missing element $"):
+        return "err channels"
     return "err other: " + msg[:80]
 
 
@@ -818,9 +953,13 @@ def evaluate(ck, cases, pool, direct_only=False):
         ck.hist("group:" + c.group)
         if c.law:
             ck.hist("law:" + c.law)
+        feats = set()
         for e in c.exprs:
             if e[0] == "call":
                 ck.hist("fn:" + e[1])
+            features(e, feats)
+        for ft in feats:
+            ck.hist(ft)
         for m in mods:
             ck.hist("model:" + " ".join(m.split(" ")[:2]))
         if ci % 1499 == 0:
@@ -846,7 +985,9 @@ def evaluate(ck, cases, pool, direct_only=False):
                 problems.append(f"{to_sass(c.exprs[k])}: {ob[1]} {ob[2]}")
             if i in range_ans and range_ans[i] != "ok 1":
                 problems.append(f"{to_sass(c.exprs[k])} printed {ob[1]!r}: not a colour with integer channels in [0,255] and alpha in [0,1] ({range_ans[i]})")
-        if c.law and obs[0][0] == "val" and obs[1][0] == "val" and obs[2][0] == "val":
+        if c.law and c.skip_if_risky and any(m.endswith(" risky") for m in mods):
+            ck.hist("law-not-judged (f64-sensitive rounding):" + c.law)
+        elif c.law and obs[0][0] == "val" and obs[1][0] == "val" and obs[2][0] == "val":
             if obs[2][1] != "true":
                 problems.append(f"grass says {c.text()} is {obs[2][1]} (lhs prints {obs[0][1]}, rhs prints {obs[1][1]})")
             elif obs[0][1] != obs[1][1]:
@@ -978,6 +1119,7 @@ def run(tier, seed):
     cases += function_cases(rng, 120 if quick else 2500)
     cases += law_cases(rng, 150 if quick else 3000)
     cases += spelling_cases(rng, 250 if quick else 4000)
+    cases += syntax_cases(rng, 60 if quick else 1200)
     enlarge = quick and bool(getattr(ck, "changed", None))
     if enlarge:
         # the modelled Rust files differ from the snapshot the model was validated against: search wider
